@@ -6,6 +6,8 @@
    Statements only; proofs in proofs/HeapProofs.v, proofs/HeapProofs2.v,
    proofs/AliasSitesProofs.v, proofs/HeapProgProofs.v, proofs/AliasBodiesProofs.v. *)
 From Coq Require Import List NArith Arith Bool.
+From Coq Require String.
+Import String.StringSyntax.
 From Tink Require Import Heap HeapProofs HeapProofs2 AliasSites AliasSitesProofs.
 From Tink Require Import HeapProg HeapProgProofs AliasBodies AliasBodiesProofs.
 Import ListNotations.
@@ -141,8 +143,10 @@ Print Assumptions C19_every_single_copy_site_is_framed.
 (* ---- FUNCTION BODIES (model/HeapProg.v) ---------------------------------------------------------
    A structured language for the slice-relevant behaviour of a Go function body: registers holding
    slices (an object register stands for one may-alias class of objects: the classes are computed by the
-   translator, OUTSIDE Coq; Coq only checks that no object register is copied into another register that is then
-   used as an object), the operations
+   translator, OUTSIDE Coq; what Coq checks on the emitted programs is narrower: SSub / SAlias / SPhi / SAppend /
+   SConcat / SClone never target an object register, stores go into object registers only, an object register
+   that is stored into another object (SStoreObj) or bound to a class (SBind) is dead afterwards, and the register
+   of a class of local objects is made once, in the entry prefix), the operations
    of model/Heap.v with freely chosen indices/lengths/bytes, opaque callee writes, stores into objects,
    escapes (return / store in a shared object / kept by a callee), call records, two-way branches, loops with
    break/continue, early return; an execution may also stop before any statement (panic).  `own_stmt` is the
@@ -248,6 +252,22 @@ Example C19_fourth_audit_counter_instances_are_rejected :
 Proof. exact fourth_audit_counter_instances_are_rejected. Qed.
 Print Assumptions C19_fourth_audit_counter_instances_are_rejected.
 
+(* ... and those of the fifth audit: an object stored into another object and filled afterwards (directly and
+   through one private intermediate); a class register that is made a second time. *)
+Example C19_fifth_audit_counter_instances_are_rejected :
+  body_checked [1; 2] [false; false; false] [false; false; false]
+    (seq [SMake 1; SMake 2; SStore 2 1; SStore 1 0; SEscape 2; SReturn]) = false /\
+  body_checked [1; 2] [false; false; false] [false; false; false]
+    (seq [SMake 1; SMake 2; SStoreObj 2 1; SStore 1 0; SEscape 2; SReturn]) = false /\
+  body_checked [1; 2; 3; 4] [false; false; false; false; false] [false; false; false; false; false]
+    (seq [SMake 1; SMake 2; SOpaque 3; SStoreObj 2 1; SStoreObj 3 2; SStore 1 0; SReturn]) = false /\
+  classes_made_once [1] (seq [SMake 1; SStore 1 0; SMake 1; SEscape 1; SReturn]) = false /\
+  body_checked [1; 2] [false; false; false; false] [false; false; false; false]
+    (seq [SMake 1; SMake 2; SClone 3 0; SStore 1 3; SStoreObj 2 1; SEscape 2; SReturn]) = true /\
+  classes_made_once [1] (seq [SMake 1; SMake 2; SStore 1 0; SReturn]) = true.
+Proof. exact fifth_audit_counter_instances_are_rejected. Qed.
+Print Assumptions C19_fifth_audit_counter_instances_are_rejected.
+
 (* THE TIE, body level.  gen/AliasBodies.v (regenerated from /repo on every run) holds the translated
    body of every function of the library's scanned packages that takes, keeps or returns byte memory
    - as far as the translator's subset reaches; the others are listed in c19_body_untranslated and are
@@ -264,6 +284,10 @@ Print Assumptions C19_fourth_audit_counter_instances_are_rejected.
    only byte memory is in scope: *big.Int values (e.g. the key that
    signature/subtle.NewECDSASignerFromPrivateKey keeps), interface values without a register, function values
    and channels are invisible. *)
+(* The premise `excepted e = false` is not needed by the PROOF (the conclusion is relative to the flags of the
+   entry, and the exceptions show up as flags); it restricts the READING: an excepted entry may in addition
+   return a view that is not logged as an escape.  The theorem that really depends on the exception list is the
+   next one (API functions have no flags at all), together with C19_exception_list_is_pinned. *)
 Theorem C19_every_function_body_frames_the_caller :
   forall e, In e c19_bodies -> excepted e = false ->
   forall h0 regs o h' regs' lg', List.length regs = fb_nregs e ->
@@ -294,6 +318,33 @@ Theorem C19_every_api_function_body_frames_the_caller :
     (forall r, In r lg' -> List.length h0 <= arr r /\ forall s, wf_slice h0 s -> arr s <> arr r).
 Proof. exact every_api_body_frames_the_caller. Qed.
 Print Assumptions C19_every_api_function_body_frames_the_caller.
+
+(* the exception list is pinned: 18 entries for 12 functions; a change in the translator's list breaks this *)
+Open Scope string_scope.
+Theorem C19_exception_list_is_pinned :
+  List.length c19_body_exceptions = 18 /\
+  map (fun x => (fst (fst x), snd (fst x))) c19_body_exceptions =
+    [("keyset", "(*MemReaderWriter).Read");
+     ("keyset", "(*MemReaderWriter).ReadEncrypted");
+     ("keyset", "(*MemReaderWriter).Write");
+     ("keyset", "(*MemReaderWriter).WriteEncrypted");
+     ("streamingaead", "(*unreader).Read");
+     ("streamingaead", "(*unreader).Read");
+     ("streamingaead/subtle", "(aesCTRHMACSegmentDecrypter).DecryptSegmentWithDst");
+     ("streamingaead/subtle", "(aesCTRHMACSegmentDecrypter).DecryptSegmentWithDst");
+     ("streamingaead/subtle", "(aesCTRHMACSegmentEncrypter).EncryptSegmentWithDst");
+     ("streamingaead/subtle", "(aesCTRHMACSegmentEncrypter).EncryptSegmentWithDst");
+     ("streamingaead/subtle", "(aesGCMHKDFSegmentDecrypter).DecryptSegmentWithDst");
+     ("streamingaead/subtle", "(aesGCMHKDFSegmentDecrypter).DecryptSegmentWithDst");
+     ("streamingaead/subtle", "(aesGCMHKDFSegmentEncrypter).EncryptSegmentWithDst");
+     ("streamingaead/subtle", "(aesGCMHKDFSegmentEncrypter).EncryptSegmentWithDst");
+     ("streamingaead/subtle/noncebased", "(*Reader).Read");
+     ("streamingaead/subtle/noncebased", "(*Reader).Read");
+     ("streamingaead/subtle/noncebased", "(*Writer).Close");
+     ("streamingaead/subtle/noncebased", "(*Writer).Write")].
+Proof. split; [rewrite <- (map_length (fun x => (fst (fst x), snd (fst x)))); rewrite exception_list_is_pinned; reflexivity | exact exception_list_is_pinned]. Qed.
+Close Scope string_scope.
+Print Assumptions C19_exception_list_is_pinned.
 
 (* what the call-site obligation gives for one record *)
 Theorem C19_call_record_meets_contract :
